@@ -1,4 +1,118 @@
 import LexVerif.Model.FormatError
 import LexVerif.Spec.FormatValid
+import LexVerif.Proof.Bits
+/-!
+# C18 — format and options validation is sound and complete (property theorems)
+-/
 namespace LexVerif.Props.C18
+open LexVerif.Model LexVerif.Model.FormatError LexVerif.Spec LexVerif.Proof.Bits
+namespace G
+export LexVerif.Gen.FormatFlags (REQUIRED_INTEGER_DIGITS REQUIRED_FRACTION_DIGITS REQUIRED_EXPONENT_DIGITS
+  REQUIRED_MANTISSA_DIGITS REQUIRED_DIGITS NO_POSITIVE_MANTISSA_SIGN REQUIRED_MANTISSA_SIGN NO_EXPONENT_NOTATION
+  NO_POSITIVE_EXPONENT_SIGN REQUIRED_EXPONENT_SIGN NO_EXPONENT_WITHOUT_FRACTION NO_SPECIAL CASE_SENSITIVE_SPECIAL
+  NO_INTEGER_LEADING_ZEROS NO_FLOAT_LEADING_ZEROS REQUIRED_EXPONENT_NOTATION CASE_SENSITIVE_EXPONENT
+  CASE_SENSITIVE_BASE_PREFIX CASE_SENSITIVE_BASE_SUFFIX INTEGER_INTERNAL_DIGIT_SEPARATOR
+  FRACTION_INTERNAL_DIGIT_SEPARATOR EXPONENT_INTERNAL_DIGIT_SEPARATOR INTEGER_LEADING_DIGIT_SEPARATOR
+  FRACTION_LEADING_DIGIT_SEPARATOR EXPONENT_LEADING_DIGIT_SEPARATOR INTEGER_TRAILING_DIGIT_SEPARATOR
+  FRACTION_TRAILING_DIGIT_SEPARATOR EXPONENT_TRAILING_DIGIT_SEPARATOR INTEGER_CONSECUTIVE_DIGIT_SEPARATOR
+  FRACTION_CONSECUTIVE_DIGIT_SEPARATOR EXPONENT_CONSECUTIVE_DIGIT_SEPARATOR SPECIAL_DIGIT_SEPARATOR
+  INTERNAL_DIGIT_SEPARATOR LEADING_DIGIT_SEPARATOR TRAILING_DIGIT_SEPARATOR CONSECUTIVE_DIGIT_SEPARATOR
+  DIGIT_SEPARATOR_SHIFT DIGIT_SEPARATOR BASE_PREFIX_SHIFT BASE_PREFIX BASE_SUFFIX_SHIFT BASE_SUFFIX
+  MANTISSA_RADIX_SHIFT MANTISSA_RADIX RADIX_SHIFT RADIX EXPONENT_BASE_SHIFT EXPONENT_BASE EXPONENT_RADIX_SHIFT
+  EXPONENT_RADIX RADIX_MASK FLAG_MASK INTERFACE_FLAG_MASK DIGIT_SEPARATOR_FLAG_MASK EXPONENT_FLAG_MASK
+  INTEGER_DIGIT_SEPARATOR_FLAG_MASK FRACTION_DIGIT_SEPARATOR_FLAG_MASK EXPONENT_DIGIT_SEPARATOR_FLAG_MASK)
+end G
+
+/-! ## (a) the generated constants are the layout `Model.Format` uses -/
+
+/-- bit position of a flag in the documentation table of `format_flags.rs` (= the index used by the
+`Model.Format` accessor of the same name) -/
+def pos : Flag → Nat
+  | .requiredIntegerDigits => 0 | .requiredFractionDigits => 1 | .requiredExponentDigits => 2
+  | .requiredMantissaDigits => 3 | .noPositiveMantissaSign => 4 | .requiredMantissaSign => 5
+  | .noExponentNotation => 6 | .noPositiveExponentSign => 7 | .requiredExponentSign => 8
+  | .noExponentWithoutFraction => 9 | .noSpecial => 10 | .caseSensitiveSpecial => 11
+  | .noIntegerLeadingZeros => 12 | .noFloatLeadingZeros => 13 | .requiredExponentNotation => 14
+  | .caseSensitiveExponent => 15 | .caseSensitiveBasePrefix => 16 | .caseSensitiveBaseSuffix => 17
+  | .integerInternalSep => 32 | .fractionInternalSep => 33 | .exponentInternalSep => 34
+  | .integerLeadingSep => 35 | .fractionLeadingSep => 36 | .exponentLeadingSep => 37
+  | .integerTrailingSep => 38 | .fractionTrailingSep => 39 | .exponentTrailingSep => 40
+  | .integerConsecutiveSep => 41 | .fractionConsecutiveSep => 42 | .exponentConsecutiveSep => 43
+  | .specialSep => 44
+
+/-- the named field of the unpacked record that corresponds to a builder flag -/
+def flagOf (u : Unpacked) : Flag → Bool
+  | .requiredIntegerDigits => u.requiredIntegerDigits | .requiredFractionDigits => u.requiredFractionDigits
+  | .requiredExponentDigits => u.requiredExponentDigits | .requiredMantissaDigits => u.requiredMantissaDigits
+  | .noPositiveMantissaSign => u.noPositiveMantissaSign | .requiredMantissaSign => u.requiredMantissaSign
+  | .noExponentNotation => u.noExponentNotation | .noPositiveExponentSign => u.noPositiveExponentSign
+  | .requiredExponentSign => u.requiredExponentSign | .noExponentWithoutFraction => u.noExponentWithoutFraction
+  | .noSpecial => u.noSpecial | .caseSensitiveSpecial => u.caseSensitiveSpecial
+  | .noIntegerLeadingZeros => u.noIntegerLeadingZeros | .noFloatLeadingZeros => u.noFloatLeadingZeros
+  | .requiredExponentNotation => u.requiredExponentNotation | .caseSensitiveExponent => u.caseSensitiveExponent
+  | .caseSensitiveBasePrefix => u.caseSensitiveBasePrefix | .caseSensitiveBaseSuffix => u.caseSensitiveBaseSuffix
+  | .integerInternalSep => u.integerInternalSep | .fractionInternalSep => u.fractionInternalSep
+  | .exponentInternalSep => u.exponentInternalSep | .integerLeadingSep => u.integerLeadingSep
+  | .fractionLeadingSep => u.fractionLeadingSep | .exponentLeadingSep => u.exponentLeadingSep
+  | .integerTrailingSep => u.integerTrailingSep | .fractionTrailingSep => u.fractionTrailingSep
+  | .exponentTrailingSep => u.exponentTrailingSep | .integerConsecutiveSep => u.integerConsecutiveSep
+  | .fractionConsecutiveSep => u.fractionConsecutiveSep | .exponentConsecutiveSep => u.exponentConsecutiveSep
+  | .specialSep => u.specialSep
+
+/-- **(a) `gen_layout`.** Every flag constant printed by the compiled crate is the single bit at the position the
+`Model.Format` accessor reads, every byte mask is `0xFF` at its shift, the shifts are the byte offsets
+`Model.Format` uses, and the composite masks are the unions their documentation states. -/
+theorem gen_layout :
+    (∀ fl : Flag, fl.mask = 2 ^ pos fl) ∧
+    (G.DIGIT_SEPARATOR_SHIFT = 64 ∧ G.BASE_PREFIX_SHIFT = 88 ∧ G.BASE_SUFFIX_SHIFT = 96 ∧
+      G.MANTISSA_RADIX_SHIFT = 104 ∧ G.EXPONENT_BASE_SHIFT = 112 ∧ G.EXPONENT_RADIX_SHIFT = 120 ∧
+      G.RADIX_SHIFT = G.MANTISSA_RADIX_SHIFT) ∧
+    (G.DIGIT_SEPARATOR = (2 ^ 8 - 1) <<< 64 ∧ G.BASE_PREFIX = (2 ^ 8 - 1) <<< 88 ∧
+      G.BASE_SUFFIX = (2 ^ 8 - 1) <<< 96 ∧ G.MANTISSA_RADIX = (2 ^ 8 - 1) <<< 104 ∧
+      G.EXPONENT_BASE = (2 ^ 8 - 1) <<< 112 ∧ G.EXPONENT_RADIX = (2 ^ 8 - 1) <<< 120 ∧
+      G.RADIX = G.MANTISSA_RADIX ∧ G.RADIX_MASK = G.MANTISSA_RADIX ||| G.EXPONENT_RADIX) ∧
+    (G.REQUIRED_DIGITS = 2 ^ 4 - 1 ∧
+      G.INTERNAL_DIGIT_SEPARATOR = 2 ^ 32 ||| 2 ^ 33 ||| 2 ^ 34 ∧
+      G.LEADING_DIGIT_SEPARATOR = 2 ^ 35 ||| 2 ^ 36 ||| 2 ^ 37 ∧
+      G.TRAILING_DIGIT_SEPARATOR = 2 ^ 38 ||| 2 ^ 39 ||| 2 ^ 40 ∧
+      G.CONSECUTIVE_DIGIT_SEPARATOR = 2 ^ 41 ||| 2 ^ 42 ||| 2 ^ 43 ∧
+      G.FLAG_MASK = (2 ^ 18 - 1) ||| (2 ^ 13 - 1) <<< 32 ∧
+      G.DIGIT_SEPARATOR_FLAG_MASK = (2 ^ 13 - 1) <<< 32 ∧
+      G.INTEGER_DIGIT_SEPARATOR_FLAG_MASK = 2 ^ 32 ||| 2 ^ 35 ||| 2 ^ 38 ||| 2 ^ 41 ∧
+      G.FRACTION_DIGIT_SEPARATOR_FLAG_MASK = 2 ^ 33 ||| 2 ^ 36 ||| 2 ^ 39 ||| 2 ^ 42 ∧
+      G.EXPONENT_DIGIT_SEPARATOR_FLAG_MASK = 2 ^ 34 ||| 2 ^ 37 ||| 2 ^ 40 ||| 2 ^ 43 ∧
+      G.EXPONENT_FLAG_MASK = 2 ^ 2 ||| 2 ^ 6 ||| 2 ^ 7 ||| 2 ^ 8 ||| 2 ^ 9 ||| 2 ^ 14 ||| G.EXPONENT_DIGIT_SEPARATOR_FLAG_MASK ∧
+      G.INTERFACE_FLAG_MASK = G.REQUIRED_DIGITS ||| 2 ^ 6 ||| 2 ^ 7 ||| 2 ^ 8 ||| 2 ^ 9 ||| 2 ^ 13 ||| 2 ^ 14 |||
+        (2 ^ 12 - 1) <<< 32) := by
+  refine ⟨?_, by decide, by decide, by decide⟩
+  intro fl; cases fl <;> decide
+
+theorem mask_eq (fl : Flag) : fl.mask = 2 ^ pos fl := gen_layout.1 fl
+
+/-- the Rust flag test with the generated constant reads the bit the `Model.Format` accessor reads -/
+theorem hasFlag_unpack (f : Nat) (fl : Flag) : hasFlag f fl.mask = flagOf (unpack f) fl := by
+  rw [hasFlag, mask_eq, and_two_pow_ne_zero]
+  cases fl <;> rfl
+
+theorem byteField_eq (f s : Nat) : byteField f ((2 ^ 8 - 1) <<< s) s = f / 2 ^ s % 256 := by
+  rw [byteField, and_shifted_mask_shr]; omega
+
+theorem u32Field_eq (f s : Nat) : u32Field f ((2 ^ 8 - 1) <<< s) s = f / 2 ^ s % 256 := by
+  rw [u32Field, and_shifted_mask_shr]; omega
+
+/-- the Rust extractors with the generated masks and shifts read the bytes the `Model.Format` accessors read -/
+theorem bytes_unpack (f : Nat) :
+    digitSeparator f = (unpack f).digitSeparator ∧ basePrefix f = (unpack f).basePrefix ∧
+    baseSuffix f = (unpack f).baseSuffix ∧ mantissaRadix f = (unpack f).mantissaRadix ∧
+    exponentBase f = (unpack f).exponentBase ∧ exponentRadix f = (unpack f).exponentRadix := by
+  have h1 : digitSeparator f = f / 2 ^ 64 % 256 := byteField_eq f 64
+  have h2 : basePrefix f = f / 2 ^ 88 % 256 := byteField_eq f 88
+  have h3 : baseSuffix f = f / 2 ^ 96 % 256 := byteField_eq f 96
+  have h4 : mantissaRadix f = f / 2 ^ 104 % 256 := u32Field_eq f 104
+  have h5 : u32Field f G.EXPONENT_BASE G.EXPONENT_BASE_SHIFT = f / 2 ^ 112 % 256 := u32Field_eq f 112
+  have h6 : u32Field f G.EXPONENT_RADIX G.EXPONENT_RADIX_SHIFT = f / 2 ^ 120 % 256 := u32Field_eq f 120
+  refine ⟨h1, h2, h3, h4, ?_, ?_⟩
+  · simp only [exponentBase, h5, h4]; rfl
+  · simp only [exponentRadix, h6, h4]; rfl
+
 end LexVerif.Props.C18
